@@ -140,15 +140,25 @@ def r05a(repo, chk):
         if not ids:
             continue
         ds = rd2.at(ids[0], c.comparators[0].id)
-        if ds and all(d.kind == "assign" and isinstance(d.value, ast.Call) and isinstance(d.value.func, ast.Attribute) and d.value.func.attr == "split"
-                      for d in ds):
+        def whole_line(v):
+            # <line>.split()  /  <line>.strip().split(): all tokens of the line, nothing cut away
+            if not (isinstance(v, ast.Call) and isinstance(v.func, ast.Attribute) and v.func.attr == "split" and not v.args):
+                return False
+            r = v.func.value
+            if isinstance(r, ast.Call) and isinstance(r.func, ast.Attribute) and r.func.attr in ("strip", "rstrip", "lstrip") and not r.args:
+                r = r.func.value
+            return isinstance(r, ast.Name)
+        if ds and all(d.kind == "assign" and whole_line(d.value) for d in ds):
             ok = True
+        elif ds:
+            detail.append("tokens = " + "; ".join(norm(d.value) for d in ds if d.value is not None))
         detail.append(norm(c))
     uses_re2 = [c for c in ast.walk(ru) if isinstance(c, ast.Call) and norm(c.func).startswith("re.")]
     substr = [c for c in ast.walk(ru) if isinstance(c, ast.Compare) and isinstance(c.ops[0], ast.In) and isinstance(c.comparators[0], ast.Name)
               and c.comparators[0].id in ("line", "code")]
     chk.judge("R05.a", "generate_code:remove_unused_labels:label use is decided on whole tokens", ok and not uses_re2 and not substr,
-              f"remove_unused_labels decides whether a label is used by {detail or 'an unrecognised test'} (substring / regex tests confuse 'update' with 'update.display')",
+              f"remove_unused_labels decides whether a label is used by {detail or 'an unrecognised test'}: it must compare the label with all whitespace-separated tokens of "
+              f"the whole line (substring / regex tests confuse 'update' with 'update.display'; cutting the line at '#' loses operands after HASH(\"a #1\"))",
               {"tests": detail}, f"{g.path}:{ru.lineno} in remove_unused_labels")
     # the definition test of both functions looks at the whole line / token
     for f, q in ((fn, qual), (ru, "remove_unused_labels")):
